@@ -1,3 +1,4 @@
+-- opts: -Q3
 #include "aldor"
 #include "aldorio"
 macro MI == MachineInteger;
